@@ -109,7 +109,9 @@ class SerializedFileBufferedCollection(FileBufferedCollection):
                     # multiple collections pointing to the same file, etc).
                     return
                 else:
-                    blob = self._encode(self._data)
+                    # The buffered contents are shared by all collections
+                    # bound to this file; this object's own data may be stale.
+                    blob = cached_data["contents"]
 
                     # If the contents have not been changed since the initial read,
                     # we don't need to rewrite it.
